@@ -93,10 +93,20 @@ def conjuncts(e):
 def key_language(ctx, setter):
     """automaton of the dictionary keys that pass the setter's validation"""
     E = symlang.elements(ctx)
-    loops = [n for n in own_nodes(setter.node) if isinstance(n, ast.For) and isinstance(n.iter, ast.Call)
-             and isinstance(n.iter.func, ast.Attribute) and n.iter.func.attr in ("items", "keys")]
-    if not loops:
-        loops = [n for n in own_nodes(setter.node) if isinstance(n, ast.For)]
+    def val_loops(f):
+        ls = [n for n in own_nodes(f.node) if isinstance(n, ast.For) and isinstance(n.iter, ast.Call)
+              and isinstance(n.iter.func, ast.Attribute) and n.iter.func.attr in ("items", "keys")]
+        return ls or [n for n in own_nodes(f.node) if isinstance(n, ast.For)]
+    loops = val_loops(setter)
+    if len(loops) != 1:
+        # the validation may live in a helper the setter hands the dictionary to
+        for s_ in ctx.cg.sites(setter):
+            for g in s_.callees:
+                if g.module is setter.module and g.cls is None and g is not setter and isinstance(s_.node, ast.Call) \
+                        and any(isinstance(a, ast.Name) and a.id in setter.params for a in s_.node.args) and len(val_loops(g)) == 1 \
+                        and any(isinstance(x, ast.Raise) for x in ast.walk(g.node)):
+                    setter = g
+                    loops = val_loops(g)
     if len(loops) != 1:
         raise AnalysisError("key validation loop of the setter not found")
     lp = loops[0]
@@ -215,8 +225,10 @@ def key_language(ctx, setter):
             head = None
             tail_preds = []
             tailvars = {nm for nm, ex in env.items() if isinstance(ex, ast.Subscript) and unparse(ex).replace(" ", "") == "%s[%s+1:]" % (key, jvar)}
+            headvars = {nm for nm, ex in env.items() if isinstance(ex, ast.Subscript) and unparse(ex).replace(" ", "") == "%s[:%s]" % (key, jvar)}
             for c in cs:
-                if isinstance(c, ast.Compare) and isinstance(c.ops[0], ast.In) and unparse(c.left).replace(" ", "") == "%s[:%s]" % (key, jvar):
+                if isinstance(c, ast.Compare) and isinstance(c.ops[0], ast.In) and (
+                        unparse(c.left).replace(" ", "") == "%s[:%s]" % (key, jvar) or (isinstance(c.left, ast.Name) and c.left.id in headvars)):
                     head = _fold_set(ctx, setter, c.comparators[0])
                 else:
                     tail_preds.append(c)
